@@ -4,19 +4,15 @@ C18 — model `Rm` of `fiber::RecursiveMutex` / `fiber::RecursiveTimedMutex`.
 Written from /repo: src/fault/fiber/recursive_mutex.cpp, include/yaclib/fault/detail/fiber/recursive_timed_mutex.hpp
 (scheduler abstraction and conventions as in Model/FiberSync.lean).
 
-The model contains the code as it is:
-  D4  `RecursiveMutex::unlock` never calls `_queue.NotifyOne()`: no rule ever wakes a fiber parked by `lock()`;
-      a fiber parked by `try_lock_for` can only time out.
-  D6  `lock()` / `TimedWaitHelper` call `LockHelper()` after the wait without re-checking the condition
-      (single `if`): rules `lockWokenAcq`, `tlfWokenAcq` — unreachable as long as D4 is there (nobody is ever woken).
-
-The flag `patch` switches on the *proposed minimal repair of D4 alone* (`unlock` notifies one waiter when the count
-drops to 0): it is not the code, it is there to show what the repair has to contain — with D4 repaired and D6 left
-in, two fibers own the mutex at once (`Props/C18.lean`, `patchD4_alone_violated_witness`).  The flag `loop` switches
-on the proposed repair of D6 (`while` instead of `if`, in `lock()` and — with the deadline fixed at the call — in
-`TimedWaitHelper`).  `patch = loop = true` is the code of notes/C18_proposed_patches.diff, for which the full theorems
-are proved.  Every theorem about the code as it is is stated for `patch = false` (and any `loop`: without a notify the
-continuation after the wait is dead code).
+History: until the fix commit 4d75ee5 the code had
+  D4  `RecursiveMutex::unlock` never called `_queue.NotifyOne()`: a fiber parked by `lock()` slept forever although the
+      mutex was released — scenario `rec f0=L,L,U,U f1=L,U`, choices `k0/2 p0/2 p0/2 p1/2`;
+  D6  `lock()` / `TimedWaitHelper` called `LockHelper()` after the wait without re-checking the condition (single `if`) —
+      masked by D4 (nobody was ever woken); repairing D4 alone would have produced two owners
+      (f0 holds, f1 parks, f0 unlocks and notifies f1, f2 locks, f1 resumes → `LockHelper()`),
+and this model contained them (see git history and notes/C18.md).  It now describes the repaired code: `unlock()`
+notifies one waiter when the count drops to 0, `lock()` waits in a `while`, `TimedWaitHelper` in
+`while (r && …)` with the deadline computed once at the call.
 -/
 import YaclibModel.Model.FiberSync
 
@@ -26,11 +22,9 @@ open Yaclib.FiberSync
 inductive Pc where
   | idle | done
   | parked                     -- `lock()`: on `_queue`, no deadline
-  | woken                      -- … notified: `LockHelper()` next
   | tParked (req dl : Nat)     -- `TimedWaitHelper`: on `_queue` and the sleep list
-  | tWoken
-  | locking                    -- (repaired, `loop`) notified: evaluates the `while` condition of `lock()` again
-  | tLocking (req : Nat)       -- (repaired, `loop`) notified: evaluates `while (r && …)` of `TimedWaitHelper` again
+  | locking                    -- notified: evaluates the `while` condition of `lock()` again
+  | tLocking (req : Nat)       -- notified: evaluates `while (r && …)` of `TimedWaitHelper` again
   | sleeping (dl : Nat)
   deriving DecidableEq, Repr
 
@@ -39,25 +33,18 @@ def Pc.inQ : Pc → Bool
   | .tParked _ _ => true
   | _ => false
 
-def Pc.woke : Pc → Bool
-  | .woken => true
-  | .tWoken => true
-  | _ => false
-
 def Pc.rechecks : Pc → Bool
   | .locking => true
   | .tLocking _ => true
   | _ => false
 
-def wake (loop : Bool) : Pc → Pc
-  | .parked => if loop then .locking else .woken
-  | .tParked req _ => if loop then .tLocking req else .tWoken
+def wake : Pc → Pc
+  | .parked => .locking
+  | .tParked req _ => .tLocking req
   | p => p
 
 structure State where
   timed : Bool
-  patch : Bool                 -- hypothetical: D4 repaired (see header); `false` = the code
-  loop : Bool                  -- hypothetical: D6 repaired (see header); `false` = the code
   pc : Fid → Pc
   owner : Option Fid           -- `_owner_id` (0 = nobody)
   count : Nat                  -- `_occupied_count`
@@ -65,19 +52,18 @@ structure State where
   now : Nat
   -- ghost
   holders : List Fid           -- one entry per successful acquisition not yet released
-  transit : List Fid           -- fibers made runnable by a NotifyOne that have not run yet (repaired variant)
-  barge : Nat                  -- D6 hits: `LockHelper()` by a woken fiber while another fiber owns the mutex
+  transit : List Fid           -- fibers made runnable by a NotifyOne that have not run yet
 
-def init (timed patch loop : Bool) (n : Nat) : State :=
-  { timed := timed, patch := patch, loop := loop, pc := fun g => if g < n then .idle else .done, owner := none,
-    count := 0, rq := [], now := 0, holders := [], transit := [], barge := 0 }
+def init (timed : Bool) (n : Nat) : State :=
+  { timed := timed, pc := fun g => if g < n then .idle else .done, owner := none,
+    count := 0, rq := [], now := 0, holders := [], transit := [] }
 
 /-- the condition under which `lock()` / `try_lock()` do not wait: `!(_occupied_count != 0 && _owner_id != me)` -/
 def Free (s : State) (f : Fid) : Prop := s.count = 0 ∨ s.owner = some f
 
 instance (s : State) (f : Fid) : Decidable (Free s f) := by unfold Free; exact inferInstance
 
-/-- whom the patched `unlock` wakes: a waiter iff the count dropped to 0 -/
+/-- whom `unlock` wakes: a waiter iff the count dropped to 0 -/
 def PatchPick (s : State) (w : Option Fid) : Prop := if s.count - 1 = 0 then PickOk s.rq w else w = none
 
 instance (s : State) (w : Option Fid) : Decidable (PatchPick s w) := by unfold PatchPick; exact inferInstance
@@ -86,11 +72,11 @@ inductive Label where
   | lockAcq (f : Fid)                            -- `f E ret lock`
   | lockPark (f : Fid)                           -- `f M rq park 0`
   | tryLock (f : Fid) (ok : Bool)                -- `f E ret try_lock b`
-  | unlock (f : Fid) (w : Option Fid)            -- `f E ret unlock` (w ≠ none only in the patched variant)
+  | unlock (f : Fid) (w : Option Fid)            -- `f M rq notify_one r idx` (last unlock only) + `f E ret unlock`
   | tlfAcq (f : Fid)                             -- `f E ret try_lock_for 1`
   | tlfPark (f : Fid) (t d j : Nat)              -- `f M rq park_timed 0 @t j=j`
   | tlfTimeout (f : Fid) (t : Nat)               -- `f M rq wake 1 @t`
-  | tlfRepark (f : Fid) (j : Nat)                -- (repaired) `f M rq park_timed 0 j=j` after a wake-up
+  | tlfRepark (f : Fid) (j : Nat)                -- `f M rq park_timed 0 j=j` after a wake-up
   | sleepStart (f : Fid) (t d : Nat) | sleepWake (f : Fid) (t : Nat)
   | finish (f : Fid)
   deriving DecidableEq, Repr
@@ -100,16 +86,13 @@ def lockHelper (s : State) (f : Fid) : State :=
   { s with count := s.count + 1, owner := some f, holders := s.holders ++ [f], pc := upd s.pc f .idle,
            transit := rm s.transit f }
 
-def doWokenAcq (s : State) (f : Fid) : State :=
-  { lockHelper s f with barge := s.barge + (if s.count ≠ 0 ∧ s.owner ≠ some f then 1 else 0) }
-
-/-- `unlock()`: `_occupied_count--; if (_occupied_count == 0) _owner_id = 0;` — and nothing else -/
+/-- `unlock()` without its notification: `_occupied_count--; if (_occupied_count == 0) _owner_id = 0;` -/
 def doUnlock (s : State) (f : Fid) : State :=
   { s with count := s.count - 1, owner := if s.count - 1 = 0 then none else s.owner, holders := s.holders.erase f }
 
 def notifyR (s : State) : Option Fid → State
   | none => s
-  | some g => { s with rq := rm s.rq g, pc := upd s.pc g (wake s.loop (s.pc g)), transit := s.transit ++ [g] }
+  | some g => { s with rq := rm s.rq g, pc := upd s.pc g (wake (s.pc g)), transit := s.transit ++ [g] }
 
 def doPark (s : State) (f : Fid) : State :=
   { s with rq := s.rq ++ [f], pc := upd s.pc f .parked, transit := rm s.transit f }
@@ -126,26 +109,18 @@ def doTlfTimeout (s : State) (f : Fid) (t : Nat) : State :=
 inductive Step : State → Label → State → Prop where
   | lockFast (s : State) (f : Fid) (h : s.pc f = .idle) (hf : Free s f) : Step s (.lockAcq f) (lockHelper s f)
   | lockPark (s : State) (f : Fid) (h : s.pc f = .idle) (hf : ¬ Free s f) : Step s (.lockPark f) (doPark s f)
-  /-- D6: `if (…) { _queue.Wait(); } LockHelper();` -/
-  | lockWokenAcq (s : State) (f : Fid) (h : s.pc f = .woken) : Step s (.lockAcq f) (doWokenAcq s f)
-  /-- (repaired) the `while` condition again -/
+  /-- after the wake-up: the `while` condition again -/
   | lockRecheckAcq (s : State) (f : Fid) (h : s.pc f = .locking) (hf : Free s f) : Step s (.lockAcq f) (lockHelper s f)
   | lockRepark (s : State) (f : Fid) (h : s.pc f = .locking) (hf : ¬ Free s f) : Step s (.lockPark f) (doPark s f)
   | tryOk (s : State) (f : Fid) (h : s.pc f = .idle) (hf : Free s f) : Step s (.tryLock f true) (lockHelper s f)
   | tryFail (s : State) (f : Fid) (h : s.pc f = .idle) (hf : ¬ Free s f) : Step s (.tryLock f false) s
-  /-- D4: no notify -/
-  | unlock (s : State) (f : Fid) (h : s.pc f = .idle) (hh : f ∈ s.holders) (hp : s.patch = false) :
-      Step s (.unlock f none) (doUnlock s f)
-  /-- the proposed repair of D4 alone (not the code) -/
-  | unlockPatched (s : State) (f : Fid) (w : Option Fid) (h : s.pc f = .idle) (hh : f ∈ s.holders)
-      (hp : s.patch = true) (hw : PatchPick s w) :
+  /-- `unlock()`: … `if (_occupied_count == 0) { _owner_id = 0; _queue.NotifyOne(); }` -/
+  | unlock (s : State) (f : Fid) (w : Option Fid) (h : s.pc f = .idle) (hh : f ∈ s.holders) (hw : PatchPick s w) :
       Step s (.unlock f w) (notifyR (doUnlock s f) w)
   | tlfFast (s : State) (f : Fid) (hk : s.timed = true) (h : s.pc f = .idle) (hf : Free s f) :
       Step s (.tlfAcq f) (lockHelper s f)
   | tlfPark (s : State) (f : Fid) (t d j : Nat) (hk : s.timed = true) (h : s.pc f = .idle) (hf : ¬ Free s f)
       (ht : s.now ≤ t) : Step s (.tlfPark f t d j) (doTlfPark s f t d j)
-  | tlfWokenAcq (s : State) (f : Fid) (hk : s.timed = true) (h : s.pc f = .tWoken) :
-      Step s (.tlfAcq f) (doWokenAcq s f)
   | tlfRecheckAcq (s : State) (f : Fid) (req : Nat) (hk : s.timed = true) (h : s.pc f = .tLocking req) (hf : Free s f) :
       Step s (.tlfAcq f) (lockHelper s f)
   | tlfRepark (s : State) (f : Fid) (req j : Nat) (hk : s.timed = true) (h : s.pc f = .tLocking req) (hf : ¬ Free s f) :
@@ -158,9 +133,9 @@ inductive Step : State → Label → State → Prop where
       Step s (.sleepWake f t) { s with pc := upd s.pc f .idle, now := t }
   | finish (s : State) (f : Fid) (h : s.pc f = .idle) : Step s (.finish f) { s with pc := upd s.pc f .done }
 
-inductive Reachable (timed patch loop : Bool) (n : Nat) : State → Prop where
-  | init : Reachable timed patch loop n (init timed patch loop n)
-  | step {s l s'} : Reachable timed patch loop n s → Step s l s' → Reachable timed patch loop n s'
+inductive Reachable (timed : Bool) (n : Nat) : State → Prop where
+  | init : Reachable timed n (init timed n)
+  | step {s l s'} : Reachable timed n s → Step s l s' → Reachable timed n s'
 
 def Quiescent (s : State) : Prop := ∀ l s', ¬ Step s l s'
 
@@ -168,7 +143,6 @@ def next (s : State) : Label → Option State
   | .lockAcq f =>
       match s.pc f with
       | .idle => if Free s f then some (lockHelper s f) else none
-      | .woken => some (doWokenAcq s f)
       | .locking => if Free s f then some (lockHelper s f) else none
       | _ => none
   | .lockPark f =>
@@ -182,15 +156,11 @@ def next (s : State) : Label → Option State
         else (if ¬ Free s f then some s else none)
       else none
   | .unlock f w =>
-      if s.pc f = .idle ∧ f ∈ s.holders then
-        if s.patch = false then (if w = none then some (doUnlock s f) else none)
-        else if PatchPick s w then some (notifyR (doUnlock s f) w) else none
-      else none
+      if s.pc f = .idle ∧ f ∈ s.holders ∧ PatchPick s w then some (notifyR (doUnlock s f) w) else none
   | .tlfAcq f =>
       if s.timed = true then
         match s.pc f with
         | .idle => if Free s f then some (lockHelper s f) else none
-        | .tWoken => some (doWokenAcq s f)
         | .tLocking _ => if Free s f then some (lockHelper s f) else none
         | _ => none
       else none
@@ -223,7 +193,6 @@ theorem next_sound {s : State} {l : Label} {s' : State} (h : next s l = some s')
       · rename_i hp; split at h
         · rename_i hf; cases h; exact .lockFast s f hp hf
         · cases h
-      · rename_i hp; cases h; exact .lockWokenAcq s f hp
       · rename_i hp; split at h
         · rename_i hf; cases h; exact .lockRecheckAcq s f hp hf
         · cases h
@@ -249,14 +218,7 @@ theorem next_sound {s : State} {l : Label} {s' : State} (h : next s l = some s')
       · cases h
   | unlock f w =>
       simp only [next] at h; split at h
-      · rename_i hg; split at h
-        · rename_i hp; split at h
-          · rename_i hw; cases h; subst hw; exact .unlock s f hg.1 hg.2 hp
-          · cases h
-        · rename_i hp; split at h
-          · rename_i hw; cases h
-            exact .unlockPatched s f w hg.1 hg.2 (by cases hpp : s.patch <;> simp_all) hw
-          · cases h
+      · rename_i hg; cases h; exact .unlock s f w hg.1 hg.2.1 hg.2.2
       · cases h
   | tlfAcq f =>
       simp only [next] at h; split at h
@@ -264,7 +226,6 @@ theorem next_sound {s : State} {l : Label} {s' : State} (h : next s l = some s')
         · rename_i hp; split at h
           · rename_i hf; cases h; exact .tlfFast s f hk hp hf
           · cases h
-        · rename_i hp; cases h; exact .tlfWokenAcq s f hk hp
         · rename_i req hp; split at h
           · rename_i hf; cases h; exact .tlfRecheckAcq s f req hk hp hf
           · cases h
